@@ -379,3 +379,32 @@ func runKnown[C any](t *testing.T, s Spec[C]) {
 
 // Errf is a small helper for oracles.
 func Errf(format string, a ...any) error { return fmt.Errorf(format, a...) }
+
+// Fuzz runs a part as a native Go fuzz target (thorough tier only; coverage-guided, not reproducible from a
+// seed - the saved failing case is the reproducible unit). decode maps the fuzzer's bytes to a case; on a failure
+// the case is written to VERIF_FAILFILE in the same format as the rapid-driven run writes it.
+func Fuzz[C any](f *testing.F, s Spec[C], decode func([]byte) C, seeds [][]byte) {
+	if want := os.Getenv("VERIF_PART"); want != "" && want != s.Part {
+		f.Skip("other part selected")
+	}
+	for _, sd := range seeds {
+		f.Add(sd)
+	}
+	open := openFindings(s.Property)
+	failFile := statsPath(os.Getenv("VERIF_FAILFILE"), s.Part)
+	f.Fuzz(func(t *testing.T, data []byte) {
+		c := decode(data)
+		info, err := safeRun(s, c)
+		if err == nil && info.Known != "" {
+			if _, ok := open[info.Known]; ok {
+				return
+			}
+			err = fmt.Errorf("failure matches signature %q which is not listed as an open finding: %s", info.Known, info.KnownDetail)
+		}
+		if err != nil {
+			cb, _ := json.Marshal(c)
+			writeJSON(failFile, Replay{Property: s.Property, Part: s.Part, Error: err.Error(), Case: cb})
+			t.Fatalf("%s/%s: %v", s.Property, s.Part, err)
+		}
+	})
+}
